@@ -131,8 +131,7 @@ theorem step_map {E : ElemOps ε} {E' : ElemOps ε'} {g : ε → ε'} (hg : Elem
     simp only [step, Op.map, transpose, map_cls, map_arr, split_map g O.cls _ _ (natural_transpose 1 ax)]
     cases split O.cls _ _ O.arr <;> rfl
   | squeeze =>
-    simp only [step, Op.map, squeeze, map_cls]
-    by_cases h : O.cls = .miller <;> simp [h, Obj.map, squeeze_map]
+    simp only [step, Op.map, squeeze, emap_ok, Obj.map, squeeze_map]
   | stack pos others =>
     simp only [step, Op.map, stack, map_arr]
     have : List.take pos (others.map (NDArray.map (Prod.map g id))) ++
